@@ -1697,6 +1697,8 @@ class ThroughputCalculator:
                 start_time=first_sample.absolute_time - first_sample.time_period,
             )
         current = self.task_stats[task]
+        # carried-over samples are already part of ``current_samples``; start from scratch so they are not stored (and counted) twice
+        current.unprocessed = []
         count = current.total_count
         last_sample = None
         for sample in current_samples:
